@@ -20,10 +20,10 @@ func (m *Mutex) get() *gate.Mutex {
 }
 
 func (m *Mutex) Init(attr *MutexAttr) int32 { m.m = gate.Cur.NewMutex(); return 0 }
-func (m *Mutex) Destroy()                    {}
-func (m *Mutex) Lock()                       { gate.Cur.Lock(m.get(), "") }
-func (m *Mutex) TryLock() bool               { panic("TryLock not modelled") }
-func (m *Mutex) Unlock()                     { gate.Cur.Unlock(m.get()) }
+func (m *Mutex) Destroy()                   {}
+func (m *Mutex) Lock()                      { gate.Cur.Lock(m.get(), "") }
+func (m *Mutex) TryLock() bool              { panic("TryLock not modelled") }
+func (m *Mutex) Unlock()                    { gate.Cur.Unlock(m.get()) }
 
 type Cond struct {
 	c *gate.Cond
